@@ -427,6 +427,8 @@ type LoopSpec struct {
 	Invariants []*Clause
 	Decreases  SExpr
 	DecSrc     string
+	Iter       []Effect // ghost updates performed at the start of every iteration
+	AtEnd      []*Clause // obligations at the end of every iteration (back edge only)
 }
 
 type GhostDecl struct {
@@ -486,6 +488,7 @@ type FuncContract struct {
 	OnCalls   []*OnCall
 	Stable    []string
 	MayAlias  bool
+	NoOverflow bool // add/sub results are assumed in range (skeleton functions with counters)
 	NoTerm    bool
 	AtReturn  []*Clause
 	File      string
@@ -495,6 +498,18 @@ type FuncContract struct {
 	Anchors   []string
 	Unfolds   []*Clause
 	Panics    bool // function may panic by contract (panic is not an obligation)
+	Lemma     bool // no Go body: the ensures clauses are proved from the requires clauses alone
+	LemmaParams []SpecParam
+	Calls     []LemmaCall // lemma body: straight-line calls of contracted functions
+	Uses      []string    // lemmas whose conclusions are assumed at entry
+}
+
+// LemmaCall is one step "call r1, r2 := F(args)" of a lemma body.
+type LemmaCall struct {
+	Results []string
+	Fn      string
+	Args    []SExpr
+	Line    int
 }
 
 type ContractDB struct {
@@ -613,9 +628,28 @@ func (db *ContractDB) loadFile(path, pkgPath string) {
 			sf.Src = rest
 			db.Specs[sf.Name] = sf
 			cur, curLoop, curOn = nil, nil, nil
-		case "func":
+		case "func", "lemma":
 			name := strings.TrimSpace(rest)
-			fc := &FuncContract{Pkg: pkgPath, Loops: map[int]*LoopSpec{}, File: path, Line: l.no}
+			fc := &FuncContract{Pkg: pkgPath, Loops: map[int]*LoopSpec{}, File: path, Line: l.no, Lemma: kw == "lemma"}
+			if fc.Lemma {
+				// lemma NAME(p T, q T): universally quantified parameters
+				if k := strings.Index(name, "("); k >= 0 && strings.HasSuffix(name, ")") {
+					for _, p := range strings.Split(name[k+1:len(name)-1], ",") {
+						fs := strings.Fields(p)
+						if len(fs) == 2 {
+							ty := fs[1]
+							if ty == "[]byte" || ty == "string" {
+								ty = "seq"
+							}
+							fc.LemmaParams = append(fc.LemmaParams, SpecParam{fs[0], ty})
+						} else if strings.TrimSpace(p) != "" {
+							errf(l.no, "lemma parameter: want 'name type'")
+						}
+					}
+					name = strings.TrimSpace(name[:k])
+				}
+				name = "lemma:" + name
+			}
 			// optional "results a b"
 			if k := strings.Index(name, " results "); k >= 0 {
 				fc.ResNames = strings.Fields(name[k+9:])
@@ -656,12 +690,21 @@ func (db *ContractDB) loadFile(path, pkgPath string) {
 						errf(l.no, "unknown mode %s", m)
 					}
 				}
+			case "uses":
+				// uses lemma NAME ...: the lemma's conclusions are assumed at entry (the lemma is proved on its own)
+				for _, f := range strings.Fields(rest) {
+					if f != "lemma" {
+						cur.Uses = append(cur.Uses, f)
+					}
+				}
 			case "trusted":
 				cur.Trusted = true
 			case "pure":
 				cur.Pure = true
 			case "mayalias":
 				cur.MayAlias = true
+			case "nooverflow":
+				cur.NoOverflow = true
 			case "noterm":
 				cur.NoTerm = true
 			case "maypanic":
@@ -675,12 +718,18 @@ func (db *ContractDB) loadFile(path, pkgPath string) {
 				for _, f := range strings.FieldsFunc(rest, func(r rune) bool { return r == ',' || r == ' ' }) {
 					cur.Stable = append(cur.Stable, f)
 				}
-			case "requires", "ensures", "invariant", "assert":
+			case "requires", "ensures", "invariant", "assert", "atend":
 				c := parseClause(kw, rest, l.no)
 				if c == nil {
 					continue
 				}
 				switch {
+				case kw == "atend":
+					if curLoop == nil {
+						errf(l.no, "atend outside loop")
+						continue
+					}
+					curLoop.AtEnd = append(curLoop.AtEnd, c)
 				case curOn != nil && kw == "requires":
 					curOn.Requires = append(curOn.Requires, c)
 				case curOn != nil && kw == "ensures":
@@ -733,6 +782,28 @@ func (db *ContractDB) loadFile(path, pkgPath string) {
 				curLoop = &LoopSpec{N: n}
 				cur.Loops[n] = curLoop
 				curOn = nil
+			case "iter":
+				if curLoop == nil {
+					errf(l.no, "iter outside loop")
+					continue
+				}
+				for _, part := range splitTopSemi(rest) {
+					fs := strings.SplitN(part, "=", 2)
+					if len(fs) != 2 {
+						errf(l.no, "iter: want 'name = expr'")
+						continue
+					}
+					ef := Effect{Target: strings.TrimSpace(fs[0])}
+					if strings.TrimSpace(fs[1]) != "*" {
+						e, err := parseSpecExpr(fs[1])
+						if err != nil {
+							errf(l.no, "%v", err)
+							continue
+						}
+						ef.Expr = e
+					}
+					curLoop.Iter = append(curLoop.Iter, ef)
+				}
 			case "ghost":
 				// ghost name type = expr
 				fs := strings.SplitN(rest, "=", 2)
@@ -796,6 +867,29 @@ func (db *ContractDB) loadFile(path, pkgPath string) {
 					continue
 				}
 				curOn.Returns = e
+			case "call":
+				// call r1, r2 := F(args)     (lemma bodies only)
+				lhs, rhs, ok := strings.Cut(rest, ":=")
+				if !ok {
+					lhs, rhs = "", rest
+				}
+				e, err := parseSpecExpr(rhs)
+				if err != nil {
+					errf(l.no, "%v", err)
+					continue
+				}
+				ce, isCall := e.(SCall)
+				if !isCall {
+					errf(l.no, "call: want 'r := F(args)'")
+					continue
+				}
+				lc := LemmaCall{Fn: ce.Fn, Args: ce.Args, Line: l.no}
+				for _, f := range strings.Split(lhs, ",") {
+					if strings.TrimSpace(f) != "" {
+						lc.Results = append(lc.Results, strings.TrimSpace(f))
+					}
+				}
+				cur.Calls = append(cur.Calls, lc)
 			case "end":
 				curOn, curLoop = nil, nil
 			case "fields":
